@@ -31,7 +31,7 @@ def shipped_specs():
 
 def build_case(cs, profile):
     rng = random.Random(cs)
-    if profile.get('shipped_rate') and rng.random() < profile['shipped_rate'] and shipped_specs():
+    if profile.get('shipped_rate') and rng.random() < profile['shipped_rate'] * profile.get('_large_scale', 1.0) * 0.6 and shipped_specs():
         spec = dict(rng.choice(shipped_specs()))
         okw = dict(profile.get('opts', {}))
         ncrit_choices = okw.pop('ncrit_choices', None)
@@ -50,9 +50,9 @@ def build_case(cs, profile):
         kw['shape'] = rng.choice(shapes)
     if profile.get('medium_rate') and rng.random() < profile['medium_rate']:
         kw.update(max_s=6, max_p=4, max_l=3, min_s=4)
-    if profile.get('large_rate') and rng.random() < profile['large_rate']:
+    if profile.get('large_rate') and rng.random() < profile['large_rate'] * profile.get('_large_scale', 1.0):
         # too large to enumerate: judged by the output oracles only (validity, stability, statistics)
-        kw.update(max_s=25, max_p=14, max_l=6, min_s=12)
+        kw.update(max_s=25, max_p=14, max_l=6, min_s=12, max_list=4)
         kw['shape'] = rng.choice(['dense', 'lowerq', 'tight_lecturer', 'no_ties', 'dense'])
     spec = sp.make_spec(rng, **kw)
     okw = dict(profile.get('opts', {}))
@@ -66,6 +66,8 @@ def build_case(cs, profile):
 
 
 def lp_case(cs, ctx, profile, probe_rate=0.0, probe_cap=64):
+    if ctx.tier == 'quick':
+        profile = dict(profile, _large_scale=0.35)     # large instances are slow: fewer of them in the quick tier
     rng, spec, opts = build_case(cs, profile)
     ref = en.reference(spec, opts)
     if spec.get('shape') == 'shipped':
